@@ -575,7 +575,32 @@ let c19 h =
           | _ -> None) h.lines
     end
     else [] in
-  a @ b
+  (* which audits must be skipped: the audit only judges the demand figure when the buffer is empty and the last batch
+     was raised more than the Batcher's MaxOperationTime ago (by the clock at the moment the audit runs, e.g. at the
+     end of a pause, not the moment its tick came due); then it raises pass or fail, otherwise skip.  Decided from
+     the history when nothing else happens in the audit's instant. *)
+  let slow = h.busy_fd > 0 || h.busy_audit > 0 || h.busy_cap > 0 in
+  let kinds = if slow then [] else begin
+      let busy_t = Hashtbl.create 64 in
+      List.iter (fun ln -> match ln.src, ln.w with
+          | _, "enqret" :: _ | "L", "batch" :: _ | "D", "act" :: "enq" :: _ | "D", ["act"; "release"; _] -> Hashtbl.replace busy_t ln.t ()
+          | _ -> ()) h.lines;
+      let inbuf = ref 0 and last = ref (-1) and shut = ref false in
+      let maxop = eff h.maxop (60_000 * ms) in
+      List.filter_map (fun ln -> match ln.src, ln.w with
+          | _, ["enqret"; _; "0"] -> if not !shut then incr inbuf; None
+          | "L", "batch" :: rest -> let (_, ids, _) = ids_of rest in inbuf := !inbuf - List.length ids; last := ln.t; None
+          | "L", ["shutdown"] -> shut := true; None
+          | "L", (("auditskip" | "auditpass" | "auditfail") as k) :: _ when not (Hashtbl.mem busy_t ln.t) && not !shut ->
+              let must_skip = !inbuf > 0 || (!last >= 0 && ln.t - !last <= maxop) in
+              if must_skip && k <> "auditskip" then
+                Some (Printf.sprintf "c19:audit-not-skipped gen=%d t=%d %s although %d operations are buffered and the last batch was raised at %d (MaxOperationTime %d ns)" h.gen ln.t k !inbuf !last maxop)
+              else if not must_skip && k = "auditskip" then
+                Some (Printf.sprintf "c19:audit-skipped gen=%d t=%d the buffer is empty and the last batch was raised at %d, more than MaxOperationTime (%d ns) ago, but the audit was skipped" h.gen ln.t !last maxop)
+              else None
+          | _ -> None) h.lines
+    end in
+  a @ b @ kinds
 
 (* ------------------------------------------------------------------ C14 *)
 let c14 h : string list =
@@ -787,8 +812,10 @@ let monitor (pid : string) (h : hist) : string list =
   match pid with
   | "C01" -> c01 h @ c08 h | "C02" -> c02 h | "C03" -> c03 h | "C05" -> c05 h
   | "C08" -> c08 h @ c08_ticks h @ c08_flush h @ c01 h @ List.filter (fun s -> String.length s > 22 && String.sub s 0 22 = "c15:blocked-with-space") (c15 h)
-  | "C10" -> c10 h | "C11" -> c11 h | "C12" -> c12 h | "C13" -> c13 h @ c01 h | "C14" -> c14 h
-  | "C15" -> c15 h | "C16" -> c16 h | "C19" -> c19 h
+  | "C10" -> c10 h @ c08 h | "C11" -> c11 h | "C12" -> c12 h | "C13" -> c13 h @ c01 h | "C14" -> c14 h
+  | "C15" -> c15 h
+  | "C16" -> c16 h @ List.filter (fun s -> String.length s > 26 && String.sub s 0 26 = "c15:blocked-after-shutdown") (c15 h)
+  | "C19" -> c19 h
   | "C20" ->
       (* the Batcher's public API under concurrent use: no caller stays blocked for ever, nothing deadlocks, no API
          call panics (v1's Enqueue on the closed channel is finding D2 of C15/C16 and not repeated here) *)
